@@ -864,7 +864,8 @@ theorem limit_step_lt (oid n : Nat) (sub : GSpec) (done : List V) (x : V) (hlt :
 theorem limit_step_ge (oid n : Nat) (sub : GSpec) (done : List V) (x : V) (hge : n ≤ done.length) :
     ∃ t, gstep (.limit oid n sub) x (limTree oid sub done) = .ok (.stop, t) := by
   have hcnt : ((done.length : Int) + 1 > (n : Int)) := by omega
-  exact ⟨_, by simp only [gstep, limit_unpack, hcnt, if_true]⟩
+  refine ⟨dset (limTree oid sub done) (.obj oid) (.list [.int ((done.length : Int) + 1), .dict (treeOf sub done)]), ?_⟩
+  simp only [gstep, limit_unpack, hcnt, if_true]
 
 theorem limit_loop (oid n : Nat) (sub : GSpec) :
     ∀ (xs done : List V), done.length ≤ n → Hyp false sub (done ++ xs) →
